@@ -321,6 +321,8 @@ func symValue(m map[string]*big.Int, pih []*big.Int, s string) *big.Int {
 type challengeSet struct {
 	names []string
 	vals  []*big.Int
+	// the same verifier chip asked for the challenges of the same proof a second time: first name whose value differs ("" = none)
+	repeatDiff string
 }
 
 // realChallenges runs the repository's GetChallenges on the proxy engine.
@@ -350,6 +352,22 @@ func (c *gcCircuit) Define(api frontend.API) error {
 	vc := verifier.NewVerifierChip(p, c.L.Common)
 	pih := vc.GetPublicInputsHash(c.PWPI.PublicInputs)
 	ch := vc.GetChallenges(c.PWPI.Proof, pih, c.VD)
+	// a transcript starts from the empty sponge: a second transcript on the same chip (two proofs in one circuit) gives the same values
+	ch2 := vc.GetChallenges(c.PWPI.Proof, pih, c.VD)
+	same := func(name string, a, b gl.Variable) {
+		if c.Out.repeatDiff == "" && engine.ToBig(a.Limb).Cmp(engine.ToBig(b.Limb)) != 0 {
+			c.Out.repeatDiff = fmt.Sprintf("%s: %v the first time, %v the second", name, engine.ToBig(a.Limb), engine.ToBig(b.Limb))
+		}
+	}
+	for i := range ch.PlonkBetas {
+		same(fmt.Sprintf("betas[%d]", i), ch.PlonkBetas[i], ch2.PlonkBetas[i])
+	}
+	same("zeta[0]", ch.PlonkZeta[0], ch2.PlonkZeta[0])
+	same("fri_alpha[0]", ch.FriChallenges.FriAlpha[0], ch2.FriChallenges.FriAlpha[0])
+	same("pow_response", ch.FriChallenges.FriPowResponse, ch2.FriChallenges.FriPowResponse)
+	for i := range ch.FriChallenges.FriQueryIndices {
+		same(fmt.Sprintf("query_indices[%d]", i), ch.FriChallenges.FriQueryIndices[i], ch2.FriChallenges.FriQueryIndices[i])
+	}
 	add := func(name string, v gl.Variable) {
 		c.Out.names = append(c.Out.names, name)
 		c.Out.vals = append(c.Out.vals, new(big.Int).Set(engine.ToBig(v.Limb)))
@@ -473,6 +491,9 @@ func c11Transcript(req c11Req, o *ref.Oracle, resp *drv.Response, rng *rand.Rand
 					map[string]any{"instance": req.Instance, "variant": variant})
 				break
 			}
+		}
+		if got.repeatDiff != "" {
+			resp.Violate("c11/transcript/second-differs variant="+variant, fmt.Sprintf("%s k=%d: the same verifier chip asked twice for the challenges of the same proof: %s", req.Instance, req.K, got.repeatDiff), map[string]any{"instance": req.Instance, "variant": variant})
 		}
 		resp.Sample(map[string]any{"instance": req.Instance, "variant": variant, "challenges": len(got.vals), "first": got.names[0] + "=" + got.vals[0].String()})
 		if variant != "real" {
